@@ -22,7 +22,7 @@ def sh(cmd, **kw):
 def main():
     args = [a for a in sys.argv[1:] if not a.startswith("--")]
     all_checks = "--all-checks" in sys.argv
-    seeds = sorted(d for d in os.listdir(os.path.join(VERIF, SUBDIR)) if os.path.isdir(os.path.join(VERIF, "seeded", d)))
+    seeds = sorted(d for d in os.listdir(os.path.join(VERIF, SUBDIR)) if os.path.isdir(os.path.join(VERIF, SUBDIR, d)))
     if args:
         seeds = [s for s in seeds if s in args]
     dirty = sh("git -C %s status --porcelain --untracked-files=no" % REPO).stdout.strip()
@@ -31,7 +31,7 @@ def main():
         return 2
     results = []
     for s in seeds:
-        d = os.path.join(VERIF, "seeded", s)
+        d = os.path.join(VERIF, SUBDIR, s)
         meta = json.load(open(os.path.join(d, "meta.json")))
         pid = meta["property"]
         r = sh("git -C %s apply --whitespace=nowarn %s" % (REPO, os.path.join(d, "patch.diff")))
